@@ -151,6 +151,8 @@ void LVCalc(matrix *X,
   size_t i;
   size_t j;
   size_t loop;
+  size_t start;
+  size_t ntried;
   int null_lv = 0;
   double mod_p_old;
   double dot_q;
@@ -204,6 +206,8 @@ void LVCalc(matrix *X,
   for(i = 0; i < u_->size; i++){
     u_->data[i] = Y_->data[i][j];
   }
+  start = j;
+  ntried = 0;
   /* End Step 1 */
 
   #ifdef DEBUG
@@ -227,7 +231,19 @@ void LVCalc(matrix *X,
        * completely deflated, more latent variables requested than available).
        * w = u'X/u'u normalised would be 0/0 and the convergence test could never
        * succeed: return a zero latent variable and leave X and Y untouched.
+       *
+       * Before that: the response the iteration started from may happen to be
+       * orthogonal to X while another response is not. Start again from the
+       * next response; the latent variable is null only if all of them fail.
        */
+      if(loop == 0 && ntried+1 < Y_->col){
+        ntried++;
+        start = (start+1) % Y_->col;
+        for(i = 0; i < u_->size; i++){
+          u_->data[i] = Y_->data[i][start];
+        }
+        continue;
+      }
       null_lv = 1;
       break;
     }
